@@ -17,6 +17,14 @@ type Slice struct {
 	BA            *ByteArr // for byte slices
 	AL            *Loc     // for other element types: array Loc with sub
 	Off, Len, Cap *T       // BV64
+	NilC          *T       // when non-nil: symbolic "this slice is nil" (merged values); otherwise nil-ness is BA==nil && AL==nil
+}
+
+func (s Slice) isNilTerm() *T {
+	if s.NilC != nil {
+		return s.NilC
+	}
+	return BoolC(s.BA == nil && s.AL == nil)
 }
 type Ptr struct {
 	L   *Loc     // direct location
@@ -47,6 +55,7 @@ type MapObj struct {
 
 // Loc is an addressable memory location.
 type Loc struct {
+	opaqueID *T // opaque library object (e.g. *time.Location): identity is this uninterpreted id, decided by the solver
 	typ types.Type
 	v   Value    // scalar-like contents
 	sub []*Loc   // struct fields / array elements
@@ -448,6 +457,22 @@ func iteValue(c *T, a, b Value) Value {
 		y := b.(Ptr)
 		if x == y {
 			return x
+		}
+	case Slice:
+		y := b.(Slice)
+		xn, yn := x.BA == nil && x.AL == nil, y.BA == nil && y.AL == nil
+		if (xn || yn || (x.BA == y.BA && x.AL == y.AL)) && x.NilC == nil || (x.BA == y.BA && x.AL == y.AL) {
+			r := Slice{BA: x.BA, AL: x.AL, Off: Ite(c, x.Off, y.Off), Len: Ite(c, x.Len, y.Len), Cap: Ite(c, x.Cap, y.Cap)}
+			if xn {
+				r.BA, r.AL = y.BA, y.AL
+			}
+			nt := Ite(c, x.isNilTerm(), y.isNilTerm())
+			if !nt.IsC {
+				r.NilC = nt
+			} else if nt.True() {
+				return Slice{Off: BV(64, 0), Len: BV(64, 0), Cap: BV(64, 0)}
+			}
+			return r
 		}
 	case Iface:
 		y := b.(Iface)
